@@ -16,6 +16,13 @@ def main(argv=None):
     ap.add_argument("--seed", type=int, default=int(os.environ.get("VERIF_SEED", "0") or 0))
     a = ap.parse_args(argv)
     prop = a.prop.upper()
+    import warnings
+    warnings.filterwarnings("ignore")
+    try:
+        import numpy as _np
+        _np.seterr(all="ignore")
+    except Exception:
+        pass
     try:
         mod = importlib.import_module(f"qv.props.{prop.lower()}")
     except ModuleNotFoundError as e:
